@@ -18,6 +18,29 @@ CLAIMED = {
    note=TB + "Lists are unbounded nat-indexed lists; usize overflow is not modelled. The rev==true arm of changelist_from_change_table is dead code and not modelled.",
    technique="Coq proof (induction on table/backtrack/fuelled divide-and-conquer) + translator for constants + differential execution of the extracted model",
    design="5/C07"),
+ 'C09': dict(
+   text="Machine-checked refinement proof (Coq): for EVERY construction (new() or from_iter of any list) and EVERY finite history of in-range insert/remove/"
+        "inclusive drain/swap/assignment, the physical rope model (list of slot-array chunks, rebalance_from_key with carry/hold, key lookup) never panics and "
+        "its length, every indexed read (None exactly at/past the length), borrowed iteration and consuming iteration equal those of a plain list under the same "
+        "operations (theorem rope_is_growable_array, by a chunk-representation relation, an abstract list-of-lists layer with the size invariant, and simulation). "
+        "Parametric in MAX/BASE/UNDERSIZED/from_iter chunk size and the shape of Rope::new(), re-read from /repo by the translator on every run; side conditions "
+        "re-proved by computation. Tie: the COMPLETE physical layout after every operation and every read, compared verbatim between the extracted model and a clone "
+        "of /repo's rope (accessors appended to the clone only); oracle: a Vec under the same operations.",
+   note=TB + "usize arithmetic unbounded; logical slot indices are u8 in the code and nat in the model, covered by the side condition MAX_SLOT_SIZE <= 255. "
+        "Found and repaired defect D1 (fix: commit c40f786).",
+   technique="Coq refinement proof (representation relation + invariant + simulation, induction over histories) + translator + layout-level differential execution",
+   design="5/C09"),
+ 'C10': dict(
+   text="Machine-checked proof (Coq) that from EVERY layout representing a sequence (relation Rep: any assignment of logical positions to physical slots, any hole "
+        "pattern — a superset of the reachable layouts), for EVERY capacity, each chunk operation (insert, remove, swap, half-open/open drain, append into free slots, "
+        "assignment) yields a layout representing the result of the same operation on a plain list and hands back the same values; every read (len, index with None "
+        "exactly out of range, forward iteration) agrees; the owning iterator under every interleaving of next/next_back is a deque over the sequence, in particular "
+        "back-to-front iteration yields the reverse; lifted to every capacity-respecting history. Tie: slot-level layouts and results compared verbatim between the "
+        "extracted model and /repo's ArrayMap driven through an accessor appended to a clone; oracle: a Python list/deque.",
+   note=TB + "The direction of rev_pos in next_back is read by the translator and the theorem requires 'down' (side condition). Found and repaired defect D2 (fix: commit c33d9cb). "
+        "sort_unstable_by_key is modelled as a stable insertion sort; keys are pairwise different under Rep so any sorting permutation gives the same table.",
+   technique="Coq proof (abstraction relation over layouts, per-operation refinement lemmas, deque invariant for the iterator) + translator + slot-level differential execution",
+   design="5/C10"),
 }
 NA_REASON = "check not wired into the manifest yet at this commit (build in progress; see DESIGN.md section 5 for the planned theorem and tie)"
 
